@@ -21,14 +21,9 @@
 //! * `write-after-rename`    — data operation or file sync on a file whose
 //!                             rename has not been followed by a sync_dir of
 //!                             the source or destination directory
-//! * `rename-unsynced-create-cross-dir` — rename into another directory of a
-//!                             file whose directory entry (creation or an
-//!                             earlier rename) has not been followed by a
-//!                             sync_dir of its parent
-//! * `rename-onto-unsynced-entry` — rename onto an existing file whose own
-//!                             directory entry (creation or an earlier
-//!                             rename) has not been followed by a sync_dir of
-//!                             its parent
+//! * `rename-onto-unflushed-rename` — rename onto a name that is itself the
+//!                             destination of a rename not yet flushed by a
+//!                             sync_dir
 //! * `recreate`              — creating a file (or renaming onto a name) where
 //!                             a regular file existed earlier in the history
 //!                             and whose removal / pending data has not been
@@ -157,16 +152,11 @@ impl Tracker {
                 if self.dirty.contains(a) {
                     return Some("rename-pending-data");
                 }
-                if parent_of(a) != parent_of(b) && self.entry_unsynced.contains(a) {
-                    return Some("rename-unsynced-create-cross-dir");
-                }
                 if is_file(t, b) && self.dirty.contains(b) {
                     return Some("rename-pending-data");
                 }
-                if is_file(t, b)
-                    && (self.entry_unsynced.contains(b) || self.renamed.contains_key(b))
-                {
-                    return Some("rename-onto-unsynced-entry");
+                if is_file(t, b) && self.renamed.contains_key(b) {
+                    return Some("rename-onto-unflushed-rename");
                 }
                 if self.renamed.contains_key(a) {
                     return Some("write-after-rename");
